@@ -87,7 +87,7 @@ def gen_plan(rng, tier, index, config=None):
         elif op == "send_block":
             corr = r.weighted([(None, 4), ("flip_tx_byte", 5), ("truncate", 1), ("alter_header_root", 2)])
             steps.append({"op": "send_block", "block": "b%d" % r.below(nblocks), "corrupt": corr, "pos": r.bits(32),
-                          "bit": r.below(8), "via": r.pick(["Block.parse", "message", "from_bin"])})
+                          "bit": r.below(8), "via": r.pick(["Block.parse", "message", "from_bin", "offsets", "header_only", "no_merkle_check"])})
         elif op == "send_proof":
             corr = r.weighted([(None, 4), ("alter_hash", 3), ("add_hash", 2), ("remove_hash", 2), ("set_padding", 2),
                                ("alter_root", 2), ("flip_flag", 2), ("extra_flag_byte", 1)])
@@ -213,6 +213,15 @@ def _parse_block(W, via, data):
     Block = W.net.block
     if via == "Block.parse":
         return Block.parse(io.BytesIO(data))
+    if via == "offsets":
+        return Block.parse(io.BytesIO(data), include_offsets=True)
+    if via == "header_only":
+        return Block.parse(io.BytesIO(data), include_transactions=False)
+    if via == "no_merkle_check":
+        # the caller asked for no check: then it must check itself; here only parsing is exercised
+        b = Block.parse(io.BytesIO(data), check_merkle_hash=False)
+        b.check_merkle_hash()
+        return b
     if via == "message":
         return W.net.message.parse("block", data)["block"]
     return Block.from_bin(data)
@@ -265,6 +274,22 @@ def _op_send_block(ctx, W, st):
         ctx.violate("C14", "accepted-block-unreadable", {"exc": type(e).__name__, "msg": str(e)[:200]})
         return
     ctx.obs("send_block", st["block"], corr, "accepted", len(got_txs))
+    if st["via"] == "header_only":
+        if got_txs:
+            ctx.violate("C14", "header-only-parse-returned-transactions", {})
+        elif not corr and (b.as_bin() != blk["raw"][:80] or b.id() != mw.block_hash(blk["hdr"])[::-1].hex()):
+            ctx.violate("C14", "header-roundtrip-bytes", {"via": "header_only"})
+        return
+    if st["via"] == "offsets" and not corr:
+        # offsets point at the transactions inside the block bytes
+        try:
+            for t, mt in zip(b.txs, blk["txs"]):
+                off = t.offset_in_block
+                if blk["raw"][off:off + len(mw.enc_tx(mt))] != mw.enc_tx(mt):
+                    ctx.violate("C14", "transaction-offset-wrong", {"offset": off})
+                    break
+        except Exception as e:
+            ctx.violate("C14", "transaction-offset-wrong", {"exc": type(e).__name__})
     if got_txs and root != hdr_root:
         ctx.violate("C14", "block-accepted-with-wrong-merkle-root", {"corrupt": corr, "via": st["via"], "ntx": len(got_txs)})
     elif corr:
